@@ -167,7 +167,8 @@ def dagTx (allowed : List String) (rejectsPrivateJwk : Bool) (strictFraming : Bo
         match key with
         | none => .reject
         | some (k, src) =>
-          if E.verifies k s.alg 0 then .accept [{ key := k, src := src, alg := s.alg, idx := 0, overSigningInput := true }]
+          if !E.fits k s.alg then .reject                    -- verifier.go: jwx.AlgorithmFitsKey(alg, signingKey)
+          else if E.verifies k s.alg 0 then .accept [{ key := k, src := src, alg := s.alg, idx := 0, overSigningInput := true }]
           else .reject
     | _ :: _ :: _ => .reject                               -- "JWS contains multiple signature"
 
@@ -241,13 +242,16 @@ def authzV1 (supported : List String) (checksKid : Bool) (E : Env) (issuer : Str
 structure LdEnv where
   keyAlg : Key → Option String              -- crypto.SignatureAlgorithm(key)
   verifiesDetached : Key → String → Bool    -- jws verifier over header ".." digest(proof) ++ digest(document)
+  /-- jwx.AlgorithmFitsKey(alg, key) (e.g. an Ed25519 key of the wrong length does not fit) -/
+  fits : Key → String → Bool := fun _ _ => true
 
 def ldProofVerify (L : LdEnv) (key : Key) (canonicalizes : Bool) (jwsParts : Nat) (sigDecodes : Bool) : Outcome :=
   if !canonicalizes then .reject
   else match L.keyAlg key with
     | none => .reject
     | some alg =>
-      if jwsParts ≠ 2 then .reject
+      if !L.fits key alg then .reject
+      else if jwsParts ≠ 2 then .reject
       else if !sigDecodes then .reject
       else if L.verifiesDetached key alg then
         .accept [{ key := key, src := .caller, alg := alg, idx := 0, overSigningInput := true }]
